@@ -164,14 +164,12 @@ func decodeStringValue(reader ByteRuneReader, flag int32) (string, error) {
 			return "", newCodecError("decodeStringValue", "error string tag: 0x%x", tag)
 		}
 
-		newLength, err := getStringLen(reader, tag)
+		// every chunk has its own length: the next one may be shorter or longer than the one before
+		length, err = getStringLen(reader, tag)
 		if err != nil {
 			return "", err
 		}
-		if newLength < length {
-			buf = buf[:newLength]
-			length = newLength
-		}
+		buf = make([]rune, length)
 	}
 
 	return string(byteBuf.Bytes()), nil
